@@ -257,12 +257,13 @@ func (o *C05) AfterCall(w *World, c *Call) {
 					v("length", "msg-text-over-limit", fmt.Sprintf("message text has %d characters, MaxTemplateChars is %d", utf8.RuneCountInString(t), c.Opt.MaxTemplateChars))
 					return
 				}
-				if qrs, _ := m["quick_replies"].([]any); qrs != nil {
-					for _, q := range qrs {
-						if qs, _ := q.(string); utf8.RuneCountInString(qs) > 64 {
-							v("length", "quick-reply-over-limit", fmt.Sprintf("quick reply has %d characters (limit 64)", utf8.RuneCountInString(qs)))
-							return
-						}
+			}
+			// (only the text of a templated message is exempt)
+			if qrs, _ := m["quick_replies"].([]any); qrs != nil {
+				for _, q := range qrs {
+					if qs, _ := q.(string); utf8.RuneCountInString(qs) > 64 {
+						v("length", "quick-reply-over-limit", fmt.Sprintf("quick reply has %d characters (limit 64)", utf8.RuneCountInString(qs)))
+						return
 					}
 				}
 			}
